@@ -505,5 +505,11 @@ func runE2E(c *vh.Ctx, drv *vh.Driver, do func(name string, lines []string, fami
 		}
 		c.Res.DistN("e2e-commits-verified-by-real-verifier", rr.commits)
 	}
+	// the Server's context runs ahead of the Voter's in the last index (verifySortition's leniency window, known finding F-C03b)
+	for k := 0; k < c.N(30, 300); k++ {
+		lines := genE2E(c.R.Fork(), true)
+		rr := do("e2e-lag", lines, "e2e-server-ahead")
+		c.Res.DistN("e2e-commits-verified-by-real-verifier", rr.commits)
+	}
 	return nil
 }
